@@ -159,7 +159,7 @@ def expressions(thorough: bool):
     for d in prim[:4]:
         out.append(('inst', d, ((0, 14),)))
         # constrained metavariables as plugs (positive / e_fresh / negative lists that differ from one another)
-        for i in (7, 10, 15, 16):
+        for i in (7, 10, 15, 16, 9, 19, 20, 21):
             out.append(('inst', d, ((0, i),)))
             out.append(('dinst', d, ((1, i),)))
         out.append(('dinst', d, ((1, 14), (0, 2))))
@@ -208,6 +208,13 @@ def product_chunk(args):
                         g, c, p = (b.getvalue() for b in bufs)
                         out['bytes_checked'] += 1
                         verdicts[nm + ('/aggressive' if aggressive else '')] = h.verify(g, c, p)
+                        # what the bytes prove, as decoded by the reference machine, is the advertised conclusion
+                        r2 = rm.verify(g, c, p)
+                        if r2[0] in ('ACCEPT', 'MAYREJECT'):
+                            jr = [t for kk, t in r2[2].journal if kk == 'proved']
+                            if len(jr) != 1 or not c02._same_modulo_symbols(jr[0], adv):
+                                out['viol'].append(({'kind': 'bytes_prove_something_else', 'stack': nm}, c02._jd(d),
+                                                    f'{d}: the bytes written under {nm} prove {[rm.show(t) for t in jr]}, advertised {rm.show(adv)}'))
                 except Exception as ex:  # noqa: BLE001
                     res = ('raise', common.exc_family(ex))
                 out['runs'] += 1
